@@ -282,11 +282,9 @@ func c01Repo(scratch string, process bool, ext string) (*gitx.World, string) {
 	}
 	repo := w.Init("r", false)
 	if ext != "" {
-		rot := "tr a-zA-Z n-za-mN-ZA-M"
-		s := fmt.Sprintf("[lfs \"extension.rot\"]\n\tclean = %s\n\tsmudge = %s\n\tpriority = 0\n", rot, rot)
-		if ext == "chain" {
-			c, sm := c01ExtScripts(os.Getenv("VERIF_SCRATCH"))
-			s += fmt.Sprintf("[lfs \"extension.pfx\"]\n\tclean = %s\n\tsmudge = %s\n\tpriority = 1\n", c, sm)
+		s := ""
+		for _, c := range c01ExtCommands(ext) {
+			s += fmt.Sprintf("[lfs \"extension.%s\"]\n\tclean = %s\n\tsmudge = %s\n\tpriority = %d\n", c.Name, c.Clean, c.Smudge, c.Prio)
 		}
 		f, err := os.OpenFile(filepath.Join(repo, ".git", "config"), os.O_APPEND|os.O_WRONLY, 0644)
 		if err != nil {
